@@ -87,7 +87,8 @@ def run_case(case):
             xh = in_box_point(rng, D)
             yh = rng.normal(size=m) * 10.0 ** rng.uniform(-1, 1)
             rho = float(10.0 ** rng.uniform(-3, 2))
-            dt = float(10.0 ** rng.uniform(-3, 2))
+            # mostly moderate steps, a share of very long ones (tiny lamb = 1/dt on the diagonal)
+            dt = float(10.0 ** rng.uniform(-3, 2)) if rng.random() < 0.7 else float(10.0 ** rng.uniform(2, 9))
             # reference step
             p = R.proj_point(D, xh, xh, yh, rho, dt)
             pmag = np.abs(xh) + dt * (D.gabs(xh) + D.Jabs(xh).T.dot(rho * D.cabs(xh) + np.abs(yh)))
@@ -203,7 +204,11 @@ def run_case(case):
                             continue
                         F2, _ = R.implicit_F(D, xh, yh, g[0], g[1], rho, dt, act)
                         fn = float(np.max(np.abs(F2))) if F2.size else 0.0
-                        lim = 1e-9 * cond * (1.0 + float(np.max(np.abs(np.concatenate([xh, yh, g[0], g[1]])))))
+                        # magnitude of the terms of F at the new point (they grow with dt)
+                        magx = np.abs(g[0]) + np.abs(xh) + dt * (D.gabs(g[0]) + D.Jabs(g[0]).T.dot(
+                            rho * D.cabs(g[0]) + np.abs(g[1])))
+                        magy = np.abs(g[1]) + np.abs(yh) + dt * D.cabs(g[0])
+                        lim = 1e-9 * cond * (1.0 + float(np.max(np.concatenate([magx, magy]))))
                         bump("qp_one_step_exact_checked")
                         mx["qp_residual_over_allowance"] = max(mx.get("qp_residual_over_allowance", 0.0), fn / lim)
                         if not fn <= lim:
